@@ -112,6 +112,8 @@ type Result struct {
 	Panic       string        `json:"panic,omitempty"`
 	ToolTrouble string        `json:"tool_trouble,omitempty"`
 	Yields      int           `json:"yields"`
+	SyncPoints  int           `json:"sync_points"`
+	SyncYields  int           `json:"sync_yields"`
 	Streams     int           `json:"streams"`
 	SchedHash   string        `json:"sched_hash"`
 	Switches    int           `json:"switches"`
@@ -1275,6 +1277,8 @@ func (e *Engine) check(c *core.Ctx, sp spec) (*core.Outcome, error) {
 				probes["context_switch_inside_an_operation"]++
 			}
 			yields += res.Yields
+			probes["preemption_point_at_a_synchronisation_operation"] += res.SyncPoints
+			probes["preemption_at_a_synchronisation_operation"] += res.SyncYields
 			switches += res.Switches
 			fakeNS += res.FakeNS
 			probes["multipart_part_spilled_to_temp_file"] += res.TempFiles
